@@ -2,15 +2,20 @@ import GridVerif.Model.Proto
 import GridVerif.Model.Elem
 import GridVerif.Model.Becke
 import GridVerif.Gen.Becke
+import GridVerif.Model.BeckePy
+import GridVerif.Gen.BeckeRoutes
+import GridVerif.Gen.Hirshfeld
 
 namespace GridVerif.Driver.C06
-open GridVerif.Proto GridVerif.Becke GridVerif.Gen.Becke
+open GridVerif.Proto GridVerif.Becke GridVerif.Gen.Becke GridVerif.BeckePy
 
 def showErr : Err → String
   | .valueError => "value-error"
   | .indexError => "index-error"
   | .keyError => "key-error"
   | .zeroDivision => "zero-division-error"
+  | .typeError => "type-error"
+  | .fileNotFound => "file-not-found-error"
 
 def showRes : Except Err (List Float) → String
   | .ok xs => "ok " ++ sFloats xs
@@ -44,9 +49,29 @@ def pOpt {α} (p : String → Option α) : List String → Option (Option (List 
     let (xs, rest) ← pVec p toks
     pure (some xs, rest)
 
+/-- `grid.utils._bragg` as floats. -/
+def utilsBraggF : List (Option Float) :=
+  Gen.BeckeRoutes.utilsBragg.map (Option.map fun pq => Float.ofNat pq.1 / Float.ofNat pq.2)
+
+/-- the `radii` argument from the override list: empty = `None` (the harness passes `over or None`). -/
+def radiiArgOf (ov : List (Nat × Option Float)) : Option (RadiiArg (Option Float)) :=
+  if ov.isEmpty then none else some (.dict (ov.map fun e => (Key.int (e.1 : Int), e.2)))
+
+/-- `-` = None, `i k` = an integer, else a vector. -/
+def pSelect : List String → Option (SelectArg × List String)
+  | "-" :: rest => some (.none, rest)
+  | "i" :: k :: rest => do let k ← pNat k; pure (.int k, rest)
+  | toks => do
+    let (xs, rest) ← pVec pNat toks
+    pure (.seq xs, rest)
+
 structure MolIn where
   order : Nat
   mol : Except Err (Mol Float)
+  /-- the object built by the *generated* `__init__` -/
+  self : Except Err (BW (Option Float))
+  atnums : List Int
+  coords : List (V3 Float)
   rest : List String
 
 /-- `order atnums overrides coords` -/
@@ -66,7 +91,8 @@ def pMol (toks : List String) : Option MolIn := do
     let mol := radii.map fun rs =>
       let rA := rs.toArray
       ({ natom := pos.length, pos := fun i => posA.getD i ⟨0, 0, 0⟩, rad := fun i => rA.getD i 0 } : Mol Float)
-    pure ⟨order, mol, rest⟩
+    let self := Gen.BeckeRoutes.init utilsBraggF (radiiArgOf ov) (.int (order : Int))
+    pure ⟨order, mol, self, atnums.map fun (z : Nat) => (z : Int), pos, rest⟩
 
 def pPoints (toks : List String) : Option (List (V3 Float) × List String) := do
   let (pts, rest) ← pMat pFloat toks
@@ -75,7 +101,7 @@ def pPoints (toks : List String) : Option (List (V3 Float) × List String) := do
 
 def routeOf : String → Option (Route Float)
   | "gw" => some routeGW
-  | "caw" => some routeCAW
+  | "caw" => some (routeCAW cawDefaultCutoff)
   | _ => none
 
 def showTrace (t : List (Nat × Nat × List Int)) : String :=
@@ -114,7 +140,51 @@ def handle : List String → Option String
     | .ok mol =>
       let rows := pts.map fun p => (List.range mol.natom).map fun A => weight r mol m.order p A
       pure ("ok " ++ sMat sFloat rows)
+  -- the routines below run the GENERATED translations (`Gen/BeckeRoutes.lean`) on the object built by the generated `__init__`
   | "C06.generate" :: rest => do
+    let m ← pMol rest
+    let (pts, rest) ← pPoints m.rest
+    let (sel, rest) ← pSelect rest
+    let (ind, rest) ← pOpt pInt rest
+    if rest ≠ [] then none else
+    match m.self with
+    | .error e => pure (showErr e)
+    | .ok self => pure (showRes (Gen.BeckeRoutes.generate_weights self pts m.coords m.atnums sel ind))
+  | "C06.compute" :: rest => do
+    let m ← pMol rest
+    let (pts, rest) ← pPoints m.rest
+    let (sel, rest) ← pSelect rest
+    let (ind, rest) ← pOpt pInt rest
+    if rest ≠ [] then none else
+    match m.self with
+    | .error e => pure (showErr e)
+    | .ok self => pure (showRes (Gen.BeckeRoutes.compute_weights self pts m.coords m.atnums sel ind))
+  | "C06.atom" :: rest => do
+    let m ← pMol rest
+    let (pts, rest) ← pPoints m.rest
+    match rest with
+    | [k] =>
+      let k ← pNat k
+      match m.self with
+      | .error e => pure (showErr e)
+      | .ok self => pure (showRes (Gen.BeckeRoutes.compute_atom_weight self pts m.coords m.atnums k cawDefaultCutoff))
+    | [k, c] =>
+      let k ← pNat k
+      let c ← pFloat c
+      match m.self with
+      | .error e => pure (showErr e)
+      | .ok self => pure (showRes (Gen.BeckeRoutes.compute_atom_weight self pts m.coords m.atnums k c))
+    | _ => none
+  | "C06.call" :: rest => do
+    let m ← pMol rest
+    let (pts, rest) ← pPoints m.rest
+    let (ind, rest) ← pVec pInt rest
+    if rest ≠ [] then none else
+    match m.self with
+    | .error e => pure (showErr e)
+    | .ok self => pure (showRes (Gen.BeckeRoutes.call self pts m.coords m.atnums ind))
+  -- the hand model of the same routines (what the theorems of parts 1–3 are stated on; proved equal to the above)
+  | "C06.hgenerate" :: rest => do
     let m ← pMol rest
     let (pts, rest) ← pPoints m.rest
     let (sel, rest) ← pOpt pNat rest
@@ -123,7 +193,7 @@ def handle : List String → Option String
     match m.mol with
     | .error e => pure (showErr e)
     | .ok mol => pure (showRes (generateWeights (weight routeGW mol m.order) mol.natom pts sel ind))
-  | "C06.compute" :: rest => do
+  | "C06.hcompute" :: rest => do
     let m ← pMol rest
     let (pts, rest) ← pPoints m.rest
     let (sel, rest) ← pOpt pNat rest
@@ -131,18 +201,8 @@ def handle : List String → Option String
     if rest ≠ [] then none else
     match m.mol with
     | .error e => pure (showErr e)
-    | .ok mol => pure (showRes (computeWeights (weight routeCAW mol m.order) mol.natom pts sel ind))
-  | "C06.atom" :: rest => do
-    let m ← pMol rest
-    let (pts, rest) ← pPoints m.rest
-    match rest with
-    | [k] =>
-      let k ← pNat k
-      match m.mol with
-      | .error e => pure (showErr e)
-      | .ok mol => pure (showRes (computeAtomWeight (weight routeCAW mol m.order) mol.natom pts k))
-    | _ => none
-  | "C06.call" :: rest => do
+    | .ok mol => pure (showRes (computeWeights (weight (routeCAW cawDefaultCutoff) mol m.order) mol.natom pts sel ind))
+  | "C06.hcall" :: rest => do
     let m ← pMol rest
     let (pts, rest) ← pPoints m.rest
     let (ind, rest) ← pVec pInt rest
@@ -150,6 +210,42 @@ def handle : List String → Option String
     match m.mol with
     | .error e => pure (showErr e)
     | .ok mol => pure (showRes (call (weight routeGW mol m.order) mol.natom pts ind))
+  -- the generated `__init__`: `order` (`i n` = int, `o` = not an int), `radii` (`-` None, `x` not a dict,
+  -- `d k (i z | o) v …` a dictionary), then atomic numbers whose radius is looked up through the generated comprehension
+  | "C06.ginit" :: rest => do
+    let (order, rest) ← (match rest with
+      | "i" :: n :: tl => do let n ← pInt n; pure (OrderArg.int n, tl)
+      | "o" :: tl => pure (OrderArg.other, tl)
+      | _ => none)
+    let (radii, rest) ← (match rest with
+      | "-" :: tl => pure (none, tl)
+      | "x" :: tl => pure (some RadiiArg.other, tl)
+      | "d" :: k :: tl => do
+        let k ← pNat k
+        let rec go : Nat → List String → Option (List (Key × Option Float) × List String)
+          | 0, tl => some ([], tl)
+          | k + 1, "i" :: z :: v :: tl => do
+            let z ← pInt z; let v ← pFloat v
+            let (r, tl) ← go k tl
+            pure ((Key.int z, if v != v then none else some v) :: r, tl)
+          | k + 1, "o" :: v :: tl => do
+            let v ← pFloat v
+            let (r, tl) ← go k tl
+            pure ((Key.other, if v != v then none else some v) :: r, tl)
+          | _, _ => none
+        let (es, tl) ← go k tl
+        pure (some (RadiiArg.dict es), tl)
+      | _ => none)
+    let (zs, rest) ← pVec pInt rest
+    if rest ≠ [] then none else
+    match Gen.BeckeRoutes.init utilsBraggF radii order with
+    | .error e => pure (showErr e)
+    | .ok self =>
+      let look := zs.map fun z => match Gen.BeckeRoutes.radiusGW self.radii z, Gen.BeckeRoutes.radiusCAW self.radii z with
+        | .ok r, .ok r' => if r.toBits == r'.toBits then "v " ++ sFloat r else "copies-differ"
+        | .error e, .error e' => if e == e' then showErr e else "copies-differ"
+        | _, _ => "copies-differ"
+      pure (String.intercalate " " ("ok" :: toString self.order :: look))
   | "C06.calltrace" :: n :: m :: rest => do
     let n ← pNat n; let m ← pNat m
     let (ind, rest) ← pVec pInt rest
@@ -166,6 +262,48 @@ def handle : List String → Option String
     let arr := (rho.map List.toArray).toArray
     let rhoF : Nat → Nat → Float := fun i j => (arr.getD i #[]).getD j 0
     pure (showRes (hirshfeld rhoF M (List.range N) ind))
+  -- generated `HirshfeldWeights.__call__`: `dtypeIsInt atnums coords points indices` then the spline oracle supplied by the
+  -- harness: per shipped file (index into the generated listing) the pairs (distance, spline value) it evaluated with SciPy
+  | "C06.ghirsh" :: dt :: rest => do
+    let dt ← pNat dt
+    let (atnums, rest) ← pVec pInt rest
+    let (coords, rest) ← pMat pFloat rest
+    let pos ← coords.mapM toV3
+    let (pts, rest) ← pPoints rest
+    let (ind, rest) ← pVec pInt rest
+    let (nf, rest) ← (match rest with | n :: tl => do let n ← pNat n; pure (n, tl) | [] => none)
+    let rec files : Nat → List String → Option (List (Nat × Array (Float × Float)) × List String)
+      | 0, tl => some ([], tl)
+      | k + 1, fi :: tl => do
+        let fi ← pNat fi
+        let (xy, tl) ← pVec pFloat tl
+        if xy.length % 2 ≠ 0 then none else
+        let rec pairs : List Float → List (Float × Float)
+          | x :: y :: r => (x, y) :: pairs r
+          | _ => []
+        let (r, tl) ← files k tl
+        pure ((fi, (pairs xy).toArray) :: r, tl)
+      | _, _ => none
+    let (tabs, rest) ← files nf rest
+    if rest ≠ [] then none else
+    let env : ProEnv Float := {
+      npLoad := fun pkg name =>
+        if pkg != Gen.Hirshfeld.proatomPackage then .error .fileNotFound else
+        match Gen.Hirshfeld.proatomFiles.findIdx? (· == name) with
+        | some i => .ok [("r", [Float.ofNat i]), ("dn", [Float.ofNat i])]
+        | none => .error .fileNotFound
+      cubicSplineNatural := fun r _dn x =>
+        match r with
+        | [fi] =>
+          match tabs.find? (fun t => Float.ofNat t.1 == fi) with
+          | some t =>
+            -- the tabulated abscissa nearest to x
+            let best := t.2.foldl (fun (b : Float × Float) (e : Float × Float) =>
+              if (e.1 - x).abs < (b.1 - x).abs then e else b) (Float.ofScientific 1 false 300, 0.0 / 0.0)
+            if (best.1 - x).abs ≤ 1e-9 * (1.0 + x.abs) then best.2 else 0.0 / 0.0
+          | none => 0.0 / 0.0
+        | _ => 0.0 / 0.0 }
+    pure (showRes (Gen.Hirshfeld.call env pts pos ⟨dt == 1, atnums⟩ ind))
   | _ => none
 
 end GridVerif.Driver.C06
